@@ -582,6 +582,11 @@ func runStorage(c *ctx) {
 			twin.Add(&hostsfile.Record{Addr: old.Addr, Names: slices.Clone(old.Names), Source: "again"})
 		}
 
+		if maxOps > 14 && i%8 != 7 && i != nOps-1 {
+			// Wide histories are checked at every eighth step and at the end
+			// (a full check is quadratic in the pool sizes).
+			continue
+		}
 		if !checkStorage(c, s, m, "storage", stAddrs, stNames) || !checkStorage(c, twin, m, "twin storage", stAddrs, stNames) {
 			return
 		}
